@@ -193,8 +193,12 @@ fn oct_or_hex_digits<F>(
 where
     F: Fn(&char) -> bool,
 {
+    // the radix letter may be written in either case (&HFF, &hff)
     one_p('&')
-        .and(one_p(radix), StringCombiner)
+        .and(
+            read_p().filter(move |ch: &char| ch.eq_ignore_ascii_case(&radix)),
+            StringCombiner,
+        )
         .and(
             one_char_to_str('-')
                 .to_option()
